@@ -314,6 +314,21 @@ def r16_5(run):
             ok = any(lab == 'T' and const(t.ast.left) == flag for t, lab in gd)
             run.ob('R16.5', cr, n.ast, '%s holds exactly the relays with the (lower-cased) %s flag' % (coll, flag), ok, slot='flag:%s' % coll,
                    message='%s membership is not keyed on the lower-case flag %r the flags setter produces' % (coll, flag))
+    # nothing but the per-document reset removes a relay from the two collections (a relay whose *nickname* is ambiguous still
+    # carries its flag)
+    for u in class_units(run.idx, ts_):
+        for n in walk_unit(u):
+            hit = None
+            if isinstance(n, ast.Call) and dotted(n.func) in ('self.guards.pop', 'self.authorities.pop', 'self.guards.popitem', 'self.authorities.popitem',
+                                                              'self.guards.clear', 'self.authorities.clear') and u.name != '_update_network_status':
+                hit = src(n)
+            if isinstance(n, ast.Call) and dotted(n.func) in ('self.guards.pop', 'self.authorities.pop', 'self.guards.popitem', 'self.authorities.popitem'):
+                hit = src(n)
+            if isinstance(n, ast.Delete) and any(isinstance(t, ast.Subscript) and dotted(t.value) in ('self.guards', 'self.authorities') for t in n.targets):
+                hit = src(n)
+            if hit:
+                run.ob('R16.5', u, n, 'relays leave the guard / authority collections only through the per-document reset', False, slot='flag-collection-removal@%s' % u.short,
+                       message='%s removes single entries from a flag collection (%s): a relay that carries the flag in the latest document disappears from it' % (u.short, hit[:40]))
     rc = run.idx.cls('Router', 'router')
     fs = [u for u in run.idx.all_units() if u.owner_cls is rc and u.name == 'flags' and any('setter' in d for d in u.decorators())]
     ok = bool(fs) and any(isinstance(n, ast.ListComp) and 'lower()' in src(n.elt) for n in walk_unit(fs[0]))
@@ -370,6 +385,18 @@ def r16_8(run):
     dels = [n for n in g.real_nodes() if n.kind == 'stmt' and isinstance(n.ast, ast.Delete) and any(isinstance(t, ast.Subscript) and dotted(t.value) == 'self.routers' for t in n.ast.targets)]
     run.ob('R16.8', un, un.node, 'blanked (ambiguous) nicknames are removed from the nickname index', bool(dels), slot='dup-removed',
            message='_update_network_status no longer deletes the None placeholders: an ambiguous nickname resolves to None instead of being unknown')
+    # the parser hands a relay over lazily (on the next "r" line or on done()): the flush precedes the pass that reads the
+    # indexes, otherwise the last relay of the document is indexed after its ambiguous nickname should have been removed
+    flush = g.nodes_where(lambda n: any(isinstance(a, ast.Call) and callee_attr(a) == 'done' for a in node_asts(n)))
+    readers = [n for n in g.live if n.kind == 'iter' and isinstance(n.ast, ast.For) and 'self.routers' in src(n.ast.iter)]
+    for rd in readers:
+        r_ = g.reachable([g.entry], avoid=lambda n: n in flush, follow_exc=False)
+        # paths that fed no line (empty payload) have nothing to flush: only paths through a feed count
+        feeds = g.nodes_where(lambda n: any(isinstance(a, ast.Call) and callee_attr(a) == 'feed_line' for a in node_asts(n)))
+        late = any(rd in g.reachable([s_ for _, s_ in f_.succ], avoid=lambda n: n in flush, follow_exc=False) for f_ in feeds)
+        run.ob('R16.8', un, rd.ast, 'the document parser is flushed before the nickname index is post-processed', not late, slot='flush-before-dup-pass',
+               message='_update_network_status walks self.routers for ambiguous nicknames before calling done() on the parser: the last relay of the document is created '
+                       'afterwards, so a duplicate nickname carried by the last entry keeps its None placeholder')
     for dn in dels:
         lp = [x for x in walk_unit(un) if isinstance(x, ast.For) and any(y is dn.ast for y in ast.walk(x))]
         if lp and isinstance(lp[0].iter, ast.Name):
@@ -399,6 +426,8 @@ RULES = [
 from ..selftest import M  # noqa: E402
 FT, FP, FR = 'txtorcon/torstate.py', 'txtorcon/_microdesc_parser.py', 'txtorcon/router.py'
 MUTANTS = [
+    M('authority-dropped-with-dup-nick', FT, "        for k in remove_keys:\n            del self.routers[k]\n", "        for k in remove_keys:\n            del self.routers[k]\n            self.authorities.pop(k, None)\n", ['R16.5']),
+    M('flush-after-dup-pass', FT, ["                self._network_status_parser.feed_line(line)\n            self._network_status_parser.done()\n", "        for k in remove_keys:\n            del self.routers[k]\n"], ["                self._network_status_parser.feed_line(line)\n", "        for k in remove_keys:\n            del self.routers[k]\n        self._network_status_parser.done()\n"], ['R16.8']),
     M('bandwidth-last-equals', FP, "        args = data.split()[1:]\n        kw = find_keywords(args)\n        self._relay_attrs['bandwidth'] = kw['Bandwidth']", "        self._relay_attrs['bandwidth'] = data.rpartition('=')[2]", ['R16.8']),
     M('first-flag-lost', FP, "    def _router_flags(self, data):\n        args = data.split()[1:]", "    def _router_flags(self, data):\n        args = data.split()[2:]", ['R16.8']),
     M('dup-names-kept', FT, "        for k in remove_keys:\n            del self.routers[k]\n", "", ['R16.8']),
